@@ -563,6 +563,48 @@ def run(ctx):
     ctx.pmap(_tower_unit, [tw[i::32] for i in range(32) if tw[i::32]])
     ctx.layer("pumped-towers", filters=int(ctx.counts["states"] - before), exhaustive=True,
               note="every self-composable constructor and every ordered pair of them stacked 4 / 6 (thorough: 8) times on either spine")
+    no = odd_digit_layer(ctx)
+    ctx.layer("non-ascii-digits", spellings=len(ODD_DIGITS), templates=len(ODD_TEMPLATES), translations=no, exhaustive=True,
+              note="number / date / time / duration / GUID spellings with Unicode decimal digits: rejected by the parser, or translated to ASCII-only SQL tokens")
+
+
+# ---------------------------------------------------------------- digits that are not ASCII digits
+# \d, int() and float() accept every Unicode decimal digit; SQL does not. If the parser accepts such a spelling as a number (or date,
+# time, duration, GUID), the SQL text must still consist of SQL tokens: outside string literals and quoted identifiers only ASCII.
+ODD_DIGITS = ["\u0663", "\uff11\uff12", "1\u0665", "\u0967", "1.\u0665", "1.\u0665e\uff11", "-\u0663", "2\u0660\u0662\u0660-01-01", "2020-0\u0661-01T00:00:00Z", "1\u0660:30:00",
+              "duration'P\u0661D'", "123e4567-e89b-12d3-a456-42661417400\u0660"]
+ODD_TEMPLATES = ["n eq {L}", "{L} eq n", "n in (1, {L})", "n add {L} gt 0", "round({L}) eq 1", "d gt {L}", "not (n eq {L})"]
+
+
+def odd_digit_layer(ctx):
+    n = 0
+    for lit in ODD_DIGITS:
+        for tpl in ODD_TEMPLATES:
+            text = tpl.replace("{L}", lit)
+            ctx.count("states")
+            try:
+                tree = _ps.parse(_lx.tokenize(text))
+            except exceptions.ODataException:
+                ctx.outcome(("odd-digit", "rejected"))
+                continue
+            for dname, cls in DIALECTS.items():
+                n += 1
+                ctx.count("executions")
+                ctx.count("transitions")
+                try:
+                    sql = cls().visit(tree)
+                except exceptions.ODataException:
+                    ctx.outcome(("odd-digit", "refused"))
+                    continue
+                except Exception as e:  # noqa
+                    ctx.violation("%s:odd-digit:foreign:%s" % (dname, type(e).__name__), {"filter": text, "dialect": dname, "layer": "odd-digits"})
+                    continue
+                bad = [t for t in sqllex.lex(sql) if t.kind not in ("str", "qid") and not t.text.isascii()]
+                if bad:
+                    ctx.violation("%s:odd-digit:non-ascii-token" % dname, {"filter": text, "dialect": dname, "layer": "odd-digits", "sql": sql, "token": bad[0].text})
+                else:
+                    ctx.outcome(("odd-digit", "ascii"))
+    return n
 
 
 def _untuple(x):
@@ -571,6 +613,13 @@ def _untuple(x):
 
 def replay(ctx, case):
     text = case["filter"]
+    if case.get("layer") == "odd-digits":
+        try:
+            sql = DIALECTS[case["dialect"]]().visit(_ps.parse(_lx.tokenize(text)))
+        except exceptions.ODataException as e:
+            return {"filter": text, "outcome": type(e).__name__, "ok": True}
+        bad = [t.text for t in sqllex.lex(sql) if t.kind not in ("str", "qid") and not t.text.isascii()]
+        return {"filter": text, "sql": sql, "non_ascii_tokens": bad, "ok": not bad}
     from vt.decode import decode
     tree = _ps.parse(_lx.tokenize(text))
     acc = Acc()
